@@ -93,7 +93,7 @@ func (j *jsonproto) Pack(m erpc.Message) error {
 	bb.Write(msg6)
 	bb.WriteString(strconv.FormatInt(int64(m.BodyCodec()), 10))
 	bb.Write(msg7)
-	bb.Write(bytes.Replace(bodyBytes, []byte{'"'}, []byte{'\\', '"'}, -1))
+	bb.Write(escapeBody(bodyBytes))
 	bb.Write(msg8)
 
 	// do transfer pipe
@@ -171,4 +171,11 @@ func (j *jsonproto) Unpack(m erpc.Message) error {
 	body := gjson.Get(s, "body").String()
 	err = m.UnmarshalBody(goutil.StringToBytes(body))
 	return err
+}
+
+// escapeBody escapes the body for embedding it in a JSON string:
+// the backslash first, then the double quote (Unpack reads it back with gjson's String()).
+func escapeBody(bodyBytes []byte) []byte {
+	bodyBytes = bytes.Replace(bodyBytes, []byte{'\\'}, []byte{'\\', '\\'}, -1)
+	return bytes.Replace(bodyBytes, []byte{'"'}, []byte{'\\', '"'}, -1)
 }
